@@ -100,7 +100,7 @@ def ratRem (a b : Rat) : Rat := a - ((ratTrunc (a / b) : Int) : Rat) * b
 
 def ratCmp (a b : Rat) : Option Int := some (if a < b then -1 else if a = b then 0 else 1)
 
-def bigRatTy : NumTy where
+@[reducible] def bigRatTy : NumTy where
   name := "bigrational"
   S := ratS
   parseV := parseRat?
